@@ -25,12 +25,15 @@ func NewContext(p *load.Program, tier string) *Context {
 // Memo computes a shared analysis once per context.
 func (c *Context) Memo(key string, f func() interface{}) interface{} {
 	c.mu.Lock()
-	defer c.mu.Unlock()
 	if v, ok := c.cache[key]; ok {
+		c.mu.Unlock()
 		return v
 	}
-	v := f()
+	c.mu.Unlock()
+	v := f() // may itself call Memo
+	c.mu.Lock()
 	c.cache[key] = v
+	c.mu.Unlock()
 	return v
 }
 
